@@ -5,7 +5,7 @@ import numpy as np
 from harness import common as c
 
 ALGS = ["AHrr", "AVtb", "ATvtb"]
-IMPORTS = "Model.Vec Model.Hrr Model.Vtb Tie.Close Tie.AlgTie"
+IMPORTS = "Model.Vec Model.Hrr Model.Vtb Model.Sign Model.Power Model.Algebra Tie.Close Tie.AlgTie"
 
 
 def alg_obj(name):
